@@ -64,7 +64,7 @@ CLAIMED = {
          "Nothing reachable from a failed node is ever begun; first_node_error is exactly the first recorded failure and is set iff a call failed "
          "(C06_contain, C06_error, C06_error_real, C06_raises_iff, C06_failed_not_ok); C06_fine: the same with the failure_lock block as "
          "individual steps.", "4/C06"),
- "C07": ("proof", "Lean 4 proof (termination measure, deadlock-freedom, Kahn soundness) + trace refinement check + differential test of Kahn model",
+ "C07": ("proof", "Lean 4 proof (termination measure, deadlock-freedom, Kahn soundness, default-scheduler priorities total) + trace refinement check + differential tests of the Kahn and priority models",
          "Every step of the engine model strictly decreases an explicit measure; no reachable non-final state is stuck; a returned run has exactly "
          "worker_count threads, all exited, nothing running, nothing enabled afterwards; a cycle makes the Kahn model raise and a completed sort is a "
          "topological order of all nodes (C07_terminates, C07_no_deadlock, C07_can_finish, C07_quiescent, C07_nothing_later, C07_cycle_rejected, "
